@@ -11,13 +11,14 @@ import (
 	"fmt"
 	"strconv"
 	"strings"
+	"time"
 
 	"github.com/blinklabs-io/gouroboros/ledger/byron"
 	"github.com/blinklabs-io/gouroboros/ledger/common"
 )
 
 func init() {
-	register(&Prop{ID: "C35", Gen: genC35, Run: runC35})
+	register(&Prop{ID: "C35", Gen: genC35, Run: crashSafe("C35", runC35), Timeout: 30 * time.Second})
 }
 
 func c35SeqItem(seed uint64, i int, ln int) []byte {
